@@ -90,8 +90,9 @@ Definition memory_gas_cost (mag : Z) (memlen lastfee newsize : Z) : option (Z * 
       Some ((fee * mag) mod U64, total)
     else Some (0, lastfee).
 
-(* memoryCopierGas(stackpos): memory fee + 3 per copied word, all SafeAdd/SafeMul, then the
-   magnification (checked multiplication since the fix; [mag] = 1 leaves the sum unchanged) *)
+(* memoryCopierGas(stackpos): memory fee (already magnified by memoryGasCost) + 3 per copied word,
+   SafeMul/SafeAdd, then the magnification once more as a plain (wrapping) uint64 multiplication;
+   [mag] = 1 leaves the sum unchanged *)
 Definition copier_gas (mag : Z) (memlen lastfee newsize words_operand : Z) : option (Z * Z) :=
   match memory_gas_cost mag memlen lastfee newsize with
   | None => None
@@ -100,9 +101,7 @@ Definition copier_gas (mag : Z) (memlen lastfee newsize words_operand : Z) : opt
     else let '(w, o1) := safe_mul (to_word_size words_operand) 3 in
          if o1 then None
          else let '(g2, o2) := safe_add g w in
-              if o2 then None
-              else let '(g3, o3) := safe_mul g2 mag in
-                   if o3 then None else Some (g3, last')
+              if o2 then None else Some ((g2 * mag) mod U64, last')
   end.
 
 Definition bit_len (x : Z) : Z := if x =? 0 then 0 else Z.log2 x + 1.
